@@ -69,11 +69,13 @@ func init() {
 		Families: []family{
 			{Name: "l1-cutoffs", Fn: scnC16L1, Weight: 2},
 			{Name: "l2-ticker", Fn: scnC16L2, Weight: 1},
+			{Name: "l2-stalled-loop", Fn: scnC16Stall, Weight: 1},
 		},
 		Rule: "l1: histories of arrivals separated by fake-clock sleeps with cleanup calls whose cut-offs lie strictly between arrival instants (and far past / far future); " +
 			"l2: the real Read loop with its real one-minute ticker, second half arriving after a gap swept over 1..59 s and 121 s..10 min of simulated time (60-120 s generated, not judged); " +
+			"l2-stalled-loop: the Read goroutine is withheld for 35-85 simulated seconds (slow-thread fault) so that ticks are served late, halves 5-54 s apart must still correlate; " +
 			"non-trivial = a cleanup call (or ticker firing) happened between the two halves of a session; distinct = distinct (history hash, schedule hash)",
-		Quick: 3000, Thorough: 120000,
+		Quick: 4000, Thorough: 160000,
 	})
 }
 
@@ -579,6 +581,90 @@ func scnC16L2(rc *RunCtx) {
 		rc.Fail("C16", "window-too-short", "halves %d s apart (< 60 s) were not correlated by the running processor: %d of 3 events emitted, probe emitted=%v (first half at %d s, login first=%v)", gapS, cnt, probe, t0/1000, loginFirst)
 	case gapS > 120 && cnt > 0:
 		rc.Fail("C16", "window-too-long", "halves %d s apart (> 120 s) were still correlated / held events emitted late: %d events emitted (first half at %d s, login first=%v)", gapS, cnt, t0/1000, loginFirst)
+	}
+	p.Shutdown()
+	rc.Cleanup(func() { p.teardown() })
+}
+
+// ---- C16 L2 with a stalled Read loop (slow-thread fault) ----
+//
+// The Read goroutine is withheld by the scheduler for tens of simulated seconds (a stalled
+// thread / a write that does not return), so cleanup ticks are served late. Halves whose
+// arrival stamps are less than a minute apart must still be correlated: a cleanup processed at
+// time T may only discard halves older than T - 1 min, whenever T happens to be.
+func scnC16Stall(rc *RunCtx) {
+	t := rc.Spec
+	k := NewKaudit()
+	w := &L1World{}
+	pid := 6700 + t.Choose(100, "pid")
+	y := &Session{Ses: fmt.Sprint(960 + t.Choose(9, "ses")), PID: pid, UID: 1000, Kind: "ssh"}
+	y.Login = GenLogin(t, pid, 1)
+	y.Events = append(y.Events, k.Login(y.Ses, pid, y.UID), GenAction(t, k, y.Ses, pid, y.UID), k.UserMsg("USER_LOGIN", y.Ses, pid, y.UID, true, 0))
+	w.Sessions = []*Session{y}
+	h := &History{W: w}
+	if err := w.Prepare(); err != nil {
+		rc.Abort("world: %v", err)
+		return
+	}
+	stallFrom := 30 + t.Choose(40, "stall.from") // s
+	stallLen := 35 + t.Choose(50, "stall.len")   // s
+	stallTo := stallFrom + stallLen
+	loginFirst := t.Choose(2, "loginfirst") == 1
+	first := stallTo - 1 - t.Choose(15, "first.before.end") // first half arrives during the stall
+	gap := 5 + t.Choose(50, "gap")                          // 5..54 s
+	second := first + gap
+	var sshdTL, auditTL []TLItem
+	if loginFirst {
+		sshdTL = append(sshdTL, TLItem{AtMs: first * 1000, Kind: "login", S: 0})
+		auditTL = append(auditTL, TLItem{AtMs: second * 1000, Kind: "event", S: 0, E: 0}, TLItem{AtMs: second * 1000, Kind: "event", S: 0, E: 1})
+	} else {
+		auditTL = append(auditTL, TLItem{AtMs: first * 1000, Kind: "event", S: 0, E: 0}, TLItem{AtMs: first * 1000, Kind: "event", S: 0, E: 1})
+		sshdTL = append(sshdTL, TLItem{AtMs: second * 1000, Kind: "login", S: 0})
+	}
+	probeAt := second*1000 + 3000
+	auditTL = append(auditTL, TLItem{AtMs: probeAt, Kind: "event", S: 0, E: 2})
+	p := newPipeline(rc, 2, h, sshdTL, auditTL)
+	rc.Sim.Policy = simrt.PolicyRunToBlock
+	rc.Sim.Frozen = func(name string) bool {
+		now := rc.SimNow()
+		return name == "auditd.Read" && now >= time.Duration(stallFrom)*time.Second && now < time.Duration(stallTo)*time.Second
+	}
+	if err := p.Start(); err != nil {
+		rc.Abort("start: %v", err)
+		return
+	}
+	endMs := probeAt
+	if stallTo*1000 > endMs {
+		endMs = stallTo * 1000
+	}
+	ok := p.Run(nil, time.Duration(endMs+4000)*time.Millisecond, 500*time.Millisecond, 400000)
+	rc.Sim.Count("consumer.stall")
+	rc.CaseKey(stallFrom, stallLen, first, gap, loginFirst, pid)
+	rc.R.NonTrivial = true
+	rc.R.Sample = map[string]any{"read_loop_stalled_s": []int{stallFrom, stallTo}, "first_half_at_s": first, "gap_s": gap, "login_first": loginFirst, "written": len(p.Out)}
+	if !ok {
+		rc.Abort("step budget exhausted: %v", rc.Sim.Live())
+		return
+	}
+	if p.ReadDone || len(p.procErrs) > 0 {
+		rc.Abort("processors stopped in a fault-free run: %v %v", p.ReadErr, p.procErrs)
+		return
+	}
+	// the stamps the daemon itself put on the halves: the login's UserLogin.loggedAt (sshd
+	// processor) and the moment the LOGIN record was handed to the daemon
+	cnt, probe := 0, false
+	for _, e := range p.Out {
+		if e.Type == "UserAction" && e.AuditID == y.Ses {
+			cnt++
+			if _, ei := h.eventIndexOf(e); ei == 2 {
+				probe = true
+			}
+		}
+	}
+	rc.State(fmt.Sprintf("stall/%d/%v", cnt, probe))
+	if !probe || cnt < 3 {
+		rc.Fail("C16", "window-too-short", "halves %d s apart (< 60 s) were not correlated when cleanup ticks were served late (Read loop stalled from %d s to %d s; first half at %d s, login first=%v): %d of 3 events emitted",
+			gap, stallFrom, stallTo, first, loginFirst, cnt)
 	}
 	p.Shutdown()
 	rc.Cleanup(func() { p.teardown() })
